@@ -283,3 +283,4 @@ BOUNDS = dict(cholesky="dense L0 L0^H n <= 3 (real), n = 2 (complex); positive D
               "BlockDiag with multiplicities; mutual nestings", plu="dense n <= 3 real, n = 2 complex (all pivot orders explored); Identity; Diagonal / "
               "ScalarMul of either sign; Kronecker (equal and unequal factor sizes); BlockDiag with multiplicities; Triangular, Tridiagonal, Product, "
               "Permutation, Sum through the dense path", values="all payloads symbolic")
+BOUNDS["added"] = "the same matrices without the PSD declaration (alone and as Kronecker / BlockDiag factors), BlockDiag nested with multiplicities at both levels, and the operator's parameters after the factorisation (flatten unchanged, rebuilt from 4 * parameters factorised on its own)"
